@@ -48,8 +48,8 @@ def lexer_table(engine):
             lang = rx.whole_language(reg, notes)
             tag = f'{tid}' + ('[machinefile]' if machinefile else '')
             if lang is None:
-                obls.append(Obligation(f'{tag}/translatable', 'table', [], z3.BoolVal(False), fs.lines[0], '', f'pattern {reg.pattern!r} is outside the translatable regex subset'))
-                continue
+                from pyvc.core import Unsupported
+                raise Unsupported(f'token pattern {tag} {reg.pattern!r} is outside the translatable regex subset')
             s = z3.String('tok')
             obls.append(Obligation(f'{tag}/never-empty', 'table', [z3.InRe(s, lang)], z3.Length(s) > 0, fs.lines[0], '',
                                    f'{reg.pattern!r} never matches the empty string (the scan position strictly increases)'))
